@@ -70,3 +70,77 @@ func VerifC06Transitive() {
 	}
 	verifAssert("transitive", verifOr(verifNot(verifAnd(ab, bc)), ac))
 }
+
+func verifRows(n int) (Set, []int) {
+	ks := make([]int, n)
+	ts := make([]Value, n)
+	for i := range ts {
+		ks[i] = verifNondetIntIn(0, 2)
+		ts[i] = NewTuple(NewAttr("id", NewNumber(float64(i))), NewAttr("k", NewNumber(float64(ks[i]))))
+	}
+	return MustNewSet(ts...), ks
+}
+
+// verif:bound VerifC06Rank relations of 2..4 rows (id distinct, key k in [0,2], so ties below and above the minimum occur); rank by k
+// verif:cover VerifC06Rank tie-above-min
+func VerifC06Rank() {
+	n := 2 + verifChoice(3)
+	s, ks := verifRows(n)
+	res, err := Rank(s, func(t Tuple) (Tuple, error) {
+		return NewTuple(NewAttr("r", t.MustGet("k"))), nil
+	})
+	verifAssert("rank-no-error", err == nil)
+	if err != nil {
+		return
+	}
+	verifAssert("rank-count", res.Count() == n)
+	seen := 0
+	for e := res.Enumerator(); e.MoveNext(); {
+		t := e.Current().(Tuple)
+		id := int(t.MustGet("id").(Number))
+		k := int(t.MustGet("k").(Number))
+		r := int(t.MustGet("r").(Number))
+		smaller := 0
+		for _, kk := range ks {
+			smaller += verifIte(kk < k, 1, 0)
+		}
+		verifAssert("rank-is-number-of-strictly-smaller-keys", r == smaller)
+		idc := verifConcretize(id, 0, 3)
+		verifAssert("rank-key-kept", k == ks[idc])
+		seen++
+	}
+	verifAssert("rank-all-rows", seen == n)
+	// cover: two equal keys that are not the minimum
+	if n >= 3 && ks[0] < ks[1] && ks[1] == ks[2] {
+		verifCover("tie-above-min")
+	}
+}
+
+// verif:bound VerifC06OrderBy relations of 2..4 rows as VerifC06Rank; ordered by k with the value order
+// verif:cover VerifC06OrderBy sorted
+func VerifC06OrderBy() {
+	n := 2 + verifChoice(3)
+	s, ks := verifRows(n)
+	out, err := OrderBy(s, func(v Value) (Value, error) { return v.(Tuple).MustGet("k"), nil }, ValueLess)
+	verifAssert("orderby-no-error", err == nil)
+	if err != nil {
+		return
+	}
+	verifAssert("orderby-length", len(out) == n)
+	if len(out) != n {
+		return
+	}
+	present := make([]bool, n)
+	prev := -1
+	for _, v := range out {
+		t := v.(Tuple)
+		k := int(t.MustGet("k").(Number))
+		id := verifConcretize(int(t.MustGet("id").(Number)), 0, 3)
+		verifAssert("orderby-non-decreasing", prev <= k)
+		verifAssert("orderby-row-intact", k == ks[id])
+		verifAssert("orderby-no-duplicate", !present[id])
+		present[id] = true
+		prev = k
+	}
+	verifCover("sorted")
+}
